@@ -287,6 +287,11 @@ def check_enum_bool(ctx, case):
         fbits = format(case["field"] % (1 << nbits), f"0{nbits}b")
         raw = refbits.bytes_of_bits(fbits)
         e = encodings.StringDataEncoding(encoding="ISO-8859-1", fixed_raw_length=nbits)
+    elif enc["k"] == "bin":
+        nbits = enc["bits"]
+        fbits = format(case["field"] % (1 << nbits), f"0{nbits}b")
+        raw = refbits.bytes_of_bits("0" * ((-nbits) % 8) + fbits)    # binary values are left-padded to whole bytes
+        e = encodings.BinaryDataEncoding(fixed_size_in_bits=nbits)
     else:
         fbits = format(case["field"] % (1 << enc["bits"]), f"0{enc['bits']}b")
         raw = calm.ref_raw(enc, fbits)
@@ -313,8 +318,11 @@ def check_enum_bool(ctx, case):
         pt = parameter_types.EnumeratedParameterType("T", e, enumeration=enumeration)
     else:
         exp = bool(raw)
-        pt = parameter_types.BooleanParameterType("T", e)
-    if case.get("type_route") == "xml" and enc["k"] != "str":
+        import warnings as _w
+        with _w.catch_warnings():
+            _w.simplefilter("ignore")    # "boolean over a string/binary encoding" is announced by a warning
+            pt = parameter_types.BooleanParameterType("T", e)
+    if case.get("type_route") == "xml" and enc["k"] not in ("str", "bin"):
         # the whole parameter type (encoding and enumeration list) from the harness's own XML
         from vf import xdoc
         o = dict(xdoc.DEFAULT_OPTS, ns="none")
@@ -512,8 +520,12 @@ def gen_select_sequence(draw):
 @st.composite
 def gen_enum_bool(draw):
     kind = draw(st.sampled_from(["enum", "bool"]))
-    which = draw(st.sampled_from(["int", "int", "float", "str"] if kind == "enum" else ["int", "float"]))
-    if which == "str":
+    # (a boolean over a string or binary encoding is legal, the library warns: its raw value is the byte string)
+    which = draw(st.sampled_from(["int", "int", "float", "str"] if kind == "enum" else ["int", "int", "float", "float", "str", "bin"]))
+    if which == "bin":
+        enc = {"k": "bin", "bits": draw(st.sampled_from([8, 16, 3, 12, 1]))}
+        field = draw(st.one_of(st.just(0), st.integers(0, 2 ** enc["bits"] - 1)))
+    elif which == "str":
         enc = {"k": "str", "bits": draw(st.sampled_from([8, 16]))}
         field = draw(st.one_of(st.sampled_from([0, 0x41, 0x4142, 0x30]), st.integers(0, 2 ** enc["bits"] - 1)))
         field %= 2 ** enc["bits"]
